@@ -11,7 +11,7 @@ import (
 )
 
 // 2^-10 brings prices to the order of 0.005, where rounding to cents or absolute thresholds bite
-var priceFactors = []float64{1.0 / 1024, 0.125, 16, 1024}
+var priceFactors = []float64{1.0 / (1 << 20), 1.0 / 1024, 0.125, 16, 1024}
 var volumeFactors = []float64{0.25, 32}
 
 func isVolumeField(f string) bool { return f == "V" }
@@ -184,7 +184,7 @@ func c18StratUnit(c *core.Ctx, e *cat.Strat, cfg []float64) {
 func init() {
 	core.Register(&core.Check{
 		ID:   "C18",
-		Rule: "input tries (positive alphabets / bars with positive range and volume, depth w+2 quick / w+4 thorough) for every indicator with catalogued homogeneity degrees and every scale-free strategy x configuration; every node is executed on the original series and on the series with all prices multiplied by 2^-10, 2^-3, 2^4, 2^10 and (separately) all volumes by 2^-2, 2^5; oracle: indicator outputs equal original x factor^degree bit-for-bit, strategy actions identical; states = trie nodes, non-trivial = nodes longer than the warm-up",
+		Rule: "input tries (positive alphabets / bars with positive range and volume, depth w+2 quick / w+4 thorough) for every indicator with catalogued homogeneity degrees and every scale-free strategy x configuration; every node is executed on the original series and on the series with all prices multiplied by 2^-20, 2^-10, 2^-3, 2^4, 2^10 and (separately) all volumes by 2^-2, 2^5; oracle: indicator outputs equal original x factor^degree bit-for-bit, strategy actions identical; states = trie nodes, non-trivial = nodes longer than the warm-up",
 		Assume: []string{"scale factors are powers of two (IEEE arithmetic is exactly covariant, so no tolerance); magnitudes stay far from under/overflow", "homogeneity degrees per output come from the catalogue (documented formulas)"},
 		Units: func(tier string) []core.Unit {
 			var us []core.Unit
